@@ -51,11 +51,12 @@ BOUNDSET['intersect'] = dict(ret='r', contract='''    requires bs_wf(*self), bs_
         let cl = cut_of(*self.lower); let cu = cut_of(*self.upper); let ol = cut_of(*other.lower); let ou = cut_of(*other.upper);
         lemma_cut4(cl, cu, ol, ou);
         if !boverlap(*self, *other) { assert forall|v: VKey| #![trigger within(*self, v), within(*other, v)] !(within(*self, v) && within(*other, v)) by { lemma_boverlap_none(*self, *other, v); } }
-        assert forall|v: VKey| #![trigger above(cl, v), above(ol, v)] (above(cl, v) && above(ol, v)) <==> above(if cut_cmp(cl, ol) == Ordering::Greater { cl } else { ol }, v) by {
-            if cut_cmp(cl, ol) == Ordering::Greater { if above(cl, v) { lemma_cut_mono_above(ol, cl, v); } } else { if above(ol, v) { lemma_cut_mono_above(cl, ol, v); } }
+        // whichever operand's bound is kept: a cut that is one of the two and not below (above) either bounds exactly what both bound
+        assert forall|m: Cut, v: VKey| #![trigger above(m, v)] (m == cl || m == ol) && cut_cmp(m, cl) != Ordering::Less && cut_cmp(m, ol) != Ordering::Less implies ((above(cl, v) && above(ol, v)) <==> above(m, v)) by {
+            if above(m, v) { lemma_cut_mono_above(cl, m, v); lemma_cut_mono_above(ol, m, v); }
         }
-        assert forall|v: VKey| #![trigger below(cu, v), below(ou, v)] (below(cu, v) && below(ou, v)) <==> below(if cut_cmp(cu, ou) == Ordering::Greater { ou } else { cu }, v) by {
-            if cut_cmp(cu, ou) == Ordering::Greater { if below(ou, v) { lemma_cut_mono_below(ou, cu, v); } } else { if below(cu, v) { lemma_cut_mono_below(cu, ou, v); } }
+        assert forall|m: Cut, v: VKey| #![trigger below(m, v)] (m == cu || m == ou) && cut_cmp(m, cu) != Ordering::Greater && cut_cmp(m, ou) != Ordering::Greater implies ((below(cu, v) && below(ou, v)) <==> below(m, v)) by {
+            if below(m, v) { lemma_cut_mono_below(m, cu, v); lemma_cut_mono_below(m, ou, v); }
         }
     }''')
 BOUNDSET['difference'] = dict(ret='r', contract='''    requires bs_wf(*self), bs_wf(*other),
